@@ -54,9 +54,16 @@ func (s *Sink) Write(p []byte) (int, error) {
 	if k == s.FailAt {
 		return 0, errInjected
 	}
+	if s.FailAt >= FullLengthFault && k == s.FailAt-FullLengthFault {
+		// an io.Writer may report an error although it took every byte (a tee, a sync after the write)
+		return len(p), errInjected
+	}
 	s.Writes = append(s.Writes, append([]byte(nil), p...))
 	return len(p), nil
 }
+
+// FullLengthFault + k as FailAt: the k-th Write returns (len(p), error) instead of (0, error).
+const FullLengthFault = 1000000
 
 // Source is an io.ReadSeeker over a byte slice with configurable fragmentation
 // and fault injection; every Read and Seek call is one operation.
